@@ -62,3 +62,152 @@ Example C14_removed_not_updated :
 Proof. vm_compute. split; reflexivity. Qed.
 Example C14_cycle_throws : run_ops [SAdd 1 (cfg [] [2] 0); SAdd 2 (cfg [] [1] 0); SInit] = Err (Throw 11).
 Proof. vm_compute. reflexivity. Qed.
+
+(* ================================================================================================================
+   LIFECYCLE PART (proofs/SystemsLifecycle.v).
+   The legal language of one system is a DFA.  States: the SystemState of ASystem, or None = "not registered in the
+   manager".  Alphabet: the callbacks of the model's log (EvCb c) and two manager-level marks, the registration
+   (EvAdd) and the removal (EvRemove) of the name.  Callback transitions (lc_next, the guards of system.cpp):
+       Uninit -create-> Inited -configure-> Configured -start-> Active -update-> Active
+       Active -pause-> Paused -resume-> Active,  Paused -stop-> Stopped
+       Inited | Configured | Stopped -destroy-> Uninit
+   ev_step: None -EvAdd-> Uninit; any registered state -EvRemove-> None; NO callback is accepted in state None.
+   strict_run = this automaton.  lax_run additionally accepts destroy on an Uninit system (ASystem::destroy has no
+   guard) and ignores the registration of a present name.
+   trace_run executes the model and records, per operation, the marks and then the new entries of the callback log. *)
+From Mustache.proofs Require Import SystemsLifecycle.
+
+(* the recorded trace is the model's run and its callbacks are exactly the model's callback log; per name, erasing the
+   marks gives the projection of the log to that name (oldest first) *)
+Theorem C14_trace_is_the_log : forall ops s tr n,
+  trace_run sm_init ops [] = Ok (s, tr) ->
+  run_ops ops = Ok s /\ cbs_of tr = rev (slog s) /\ cb_only (evs_of n tr) = rev (proj n (slog s)).
+Proof. exact trace_faithful_init. Qed.
+Print Assumptions C14_trace_is_the_log.
+
+Theorem C14_trace_exists : forall ops s tr s', fold_res sm_step ops s = Ok s' -> exists tr', trace_run s ops tr = Ok (s', tr').
+Proof. exact trace_exists. Qed.
+Print Assumptions C14_trace_exists.
+
+(* (a) for EVERY history in which the teardown (the manager's destructor) is the last operation, the events of every
+   name form a path of the strict automaton from "not registered" to the state the system is in: never an illegal
+   transition.  Satisfiable: lc_ops_teardown_last / lc_ops_traces. *)
+Theorem C14_lifecycle_legal : forall ops s tr n,
+  teardown_last ops -> trace_run sm_init ops [] = Ok (s, tr) -> strict_run None (evs_of n tr) = Some (sys_state s n).
+Proof. exact lifecycle_legal_strict. Qed.
+Print Assumptions C14_lifecycle_legal.
+
+(* for ALL operation sequences, also those that go on after the teardown, the lax automaton is respected; the strict
+   one is not (lc_witness_double_teardown, lc_witness_use_after_teardown: model-only histories) *)
+Theorem C14_lifecycle_legal_any_history : forall ops s tr n,
+  trace_run sm_init ops [] = Ok (s, tr) -> lax_run None (evs_of n tr) = Some (sys_state s n).
+Proof. exact lifecycle_legal_lax. Qed.
+Print Assumptions C14_lifecycle_legal_any_history.
+
+Theorem C14_strict_in_lax : forall w q q', strict_run q w = Some q' -> lax_run q w = Some q'.
+Proof. exact strict_lax_run. Qed.
+Print Assumptions C14_strict_in_lax.
+
+(* the same for one operation from ANY state (reachable or not): the guards make every single step legal *)
+Theorem C14_lifecycle_step : forall s o s', sm_step s o = Ok s' ->
+  forall n, lax_run (sys_state s n) (evs_of n (step_events s o s')) = Some (sys_state s' n).
+Proof. exact step_legal_lax. Qed.
+Print Assumptions C14_lifecycle_step.
+
+(* every accepted trace is a prefix of a complete lifecycle: from every state the system can be brought to "destroyed" *)
+Theorem C14_lifecycle_completable : forall q, exists w,
+  strict_run (Some q) (map EvCb w) = Some (Some Uninit) /\ (q <> Uninit -> exists w0, w = w0 ++ [CbDestroy]).
+Proof. exact (lc_completable false). Qed.
+Print Assumptions C14_lifecycle_completable.
+
+(* (b) a removed system receives no callback afterwards (until the name is registered again), whatever happens;
+   more generally no callback ever goes to a name that is not registered.  Satisfiable: lc_obs_remove_is_silent. *)
+Theorem C14_removed_never_called : forall n ops s s1 s',
+  sm_step s (SRemove n) = Ok s1 -> (forall u, ~ In (SAdd n u) ops) -> fold_res sm_step ops s1 = Ok s' ->
+  proj n (slog s') = proj n (slog s) /\ sys_state s' n = None.
+Proof. exact removed_never_called. Qed.
+Print Assumptions C14_removed_never_called.
+
+Theorem C14_absent_never_called : forall n ops s s',
+  sys_state s n = None -> (forall u, ~ In (SAdd n u) ops) -> fold_res sm_step ops s = Ok s' ->
+  proj n (slog s') = proj n (slog s) /\ sys_state s' n = None.
+Proof. exact absent_never_called. Qed.
+Print Assumptions C14_absent_never_called.
+
+(* (c) update is delivered only to a started system: at every update event of a name the automaton is in state Active,
+   and the event before it is start, update or resume *)
+Theorem C14_update_only_started : forall ops s tr n w1 w2,
+  teardown_last ops -> trace_run sm_init ops [] = Ok (s, tr) -> evs_of n tr = w1 ++ EvCb CbUpdate :: w2 ->
+  strict_run None w1 = Some (Some Active) /\
+  exists w0 e, w1 = w0 ++ [e] /\ (e = EvCb CbStart \/ e = EvCb CbUpdate \/ e = EvCb CbResume).
+Proof. exact update_only_started. Qed.
+Print Assumptions C14_update_only_started.
+
+(* the manager never drives a system into ASystem's "Invalid state" exception: from ANY state the only operation that
+   throws it is the registration of a name that is already registered and not destroyed (lc_obs_double_add) *)
+Theorem C14_no_invalid_state_exception : forall s o,
+  sm_step s o = Err (Throw 10) -> exists n u q, o = SAdd n u /\ sys_state s n = Some q /\ q <> Uninit.
+Proof. exact invalid_state_only_on_double_add. Qed.
+Print Assumptions C14_no_invalid_state_exception.
+
+(* until the teardown: every registered system has been created and not destroyed, names are unique, the order has no
+   duplicates *)
+Theorem C14_lifecycle_invariant : forall ops s,
+  Forall (fun o => is_teardown o = false) ops -> run_ops ops = Ok s ->
+  ~ In Uninit (states s) /\ NoDup (names s) /\ NoDup (ordered s).
+Proof. exact inv_reachable_init. Qed.
+Print Assumptions C14_lifecycle_invariant.
+
+(* one world update: every system of the order that is started, or configured (it is started first), gets exactly one
+   update, in the order; nothing else is delivered.  Satisfiable: lc_inv_example. *)
+Theorem C14_update_delivers : forall s s', was_init s = true -> NoDup (ordered s) -> sm_step s SUpdate = Ok s' ->
+  rev (slog s') = rev (slog s) ++ flat_map (fun n => upd_cbs (sys_state s n) n) (ordered s).
+Proof. exact update_delivers. Qed.
+Print Assumptions C14_update_delivers.
+
+Theorem C14_updated_names : forall (q : nat -> option sstate) l,
+  map fst (filter (fun p => is_update (snd p)) (flat_map (fun n => upd_cbs (q n) n) l)) = filter (fun n => runs (q n)) l.
+Proof. exact updated_names. Qed.
+Print Assumptions C14_updated_names.
+
+(* the remaining systems keep running: a removal changes no other system's state, and the new order is a permutation
+   of the remaining names (so, by C14_update_delivers, each of them that is active is updated at the next update) *)
+Theorem C14_remove_others_keep_running : forall s n s',
+  Inv s -> sys_state s n <> None -> sm_step s (SRemove n) = Ok s' ->
+  Permutation (ordered s') (remove_name (names s) n) /\ names s' = remove_name (names s) n /\
+  (forall m, m <> n -> sys_state s' m = sys_state s m).
+Proof. exact remove_others_keep_running. Qed.
+Print Assumptions C14_remove_others_keep_running.
+
+(* ---- the hypotheses of the lifecycle theorems are satisfiable (see also lc_ops_teardown_last, lc_ops_traces,
+        lc_reincarnation, lc_obs_* and the two witnesses in proofs/SystemsLifecycle.v) ---- *)
+Definition lc_pre : list sop := [SAdd 1 lc_c0; SAdd 2 lc_c1; SInit; SUpdate].
+Example C14_lifecycle_hyps_trace :      (* C14_lifecycle_legal, C14_update_only_started, C14_trace_is_the_log *)
+  teardown_last lc_ops /\
+  match trace_run sm_init lc_ops [] with
+  | Ok (s, tr) => evs_of 2 tr = [EvAdd; EvCb CbCreate; EvCb CbConfigure; EvCb CbStart; EvCb CbUpdate] ++ EvCb CbUpdate :: [EvRemove]
+  | Err _ => False end.
+Proof. split; [exact lc_ops_teardown_last|vm_compute; reflexivity]. Qed.
+Example C14_lifecycle_hyps_removed :    (* C14_removed_never_called, C14_absent_never_called, C14_remove_others_keep_running *)
+  match run_ops lc_pre with
+  | Ok s => sys_state s 2 <> None /\ sys_state s 7 = None /\
+            match sm_step s (SRemove 2) with
+            | Ok s1 => match fold_res sm_step [SUpdate; SAdd 3 lc_c0; SUpdate] s1 with
+                       | Ok s' => proj 2 (slog s') = [CbUpdate; CbStart; CbConfigure; CbCreate] /\ proj 1 (slog s') <> proj 1 (slog s)
+                       | Err _ => False end
+            | Err _ => False end
+  | Err _ => False end.
+Proof. vm_compute. repeat split; discriminate. Qed.
+Example C14_lifecycle_hyps_invariant : Forall (fun o => is_teardown o = false) lc_pre /\ exists s, run_ops lc_pre = Ok s.
+Proof. split; [repeat constructor|]. vm_compute. eexists. reflexivity. Qed.
+Example C14_lifecycle_hyps_update :     (* C14_update_delivers, C14_lifecycle_step *)
+  match run_ops [SAdd 1 lc_c0; SAdd 2 lc_c1; SInit; SAdd 3 (cfg [] [] 2)] with
+  | Ok s => was_init s = true /\ ordered s = [2; 3; 1] /\ sys_state s 3 = Some Configured /\
+            match sm_step s SUpdate with
+            | Ok s' => firstn 4 (slog s') = [(1, CbUpdate); (3, CbUpdate); (3, CbStart); (2, CbUpdate)]
+            | Err _ => False end
+  | Err _ => False end.
+Proof. vm_compute. repeat split. Qed.
+Example C14_lifecycle_hyps_throw :      (* C14_no_invalid_state_exception *)
+  match run_ops [SAdd 1 lc_c0] with Ok s => sm_step s (SAdd 1 lc_c1) = Err (Throw 10) | Err _ => False end.
+Proof. vm_compute. reflexivity. Qed.
